@@ -667,3 +667,38 @@ seed("c05-resize-sup-n", "C05", TR, "        self.sup = Vector::<T>::new(n - 1, 
 seed("c05-conj-main-unconj", "C05", TR, "        let main = self.main.conj();", "        let main = self.main.clone();", "operators/conj")
 seed("c19-apply-axes-swapped", "C19", ME2, "                self.vars[ i * self.ny + j ][ var ] = func( x, y );", "                self.vars[ i * self.ny + j ][ var ] = func( y, x );", "assign-apply/apply")
 seed("c19-assign-skips-var0", "C19", ME2, "                for v in 0..self.nvars {\n                    self.vars[ i * self.ny + j ][ v ] = element.clone();", "                for v in 1..self.nvars {\n                    self.vars[ i * self.ny + j ][ v ] = element.clone();", "assign-apply/assign")
+
+# ---------------------------------------------------------------- more neutral edits
+seed("n-c08-println-in-loop", "C08", SP, "            resid = r.norm_2() / normb;\n            if resid <= tol { return Ok( i ); }\n            rho_1 = rho;", "            resid = r.norm_2() / normb;\n            println!( \"cg iteration {} residual {}\", i, resid );\n            if resid <= tol { return Ok( i ); }\n            rho_1 = rho;", "SILENT", "logging")
+seed("n-c20-panic-message", "C20", ARI, 'panic!( "Matrix dimensions do not agree (*)." );', 'panic!( "Matrix product: inner dimensions differ ({} vs {}).", self.cols, mul.rows );', "SILENT", "message text")
+seed("n-c03-extra-guard", "C03", ARI, '        if self.cols != mul.rows { panic!( "Matrix dimensions do not agree (*)." ); }', '        if self.cols != mul.rows { panic!( "Matrix dimensions do not agree (*)." ); }\n        if self.rows == usize::MAX { panic!( "too large" ); }', "SILENT", "an additional defensive guard")
+seed("n-c15-new-helper-fn", "C15", VFN, "    /// Return the sum of all the elements in the vector\n    #[inline]\n    pub fn sum(&self) -> T {", "    /// Return true if the vector has no elements\n    #[inline]\n    pub fn is_empty(&self) -> bool {\n        self.size() == 0\n    }\n\n    /// Return the sum of all the elements in the vector\n    #[inline]\n    pub fn sum(&self) -> T {", "SILENT", "an added unrelated method")
+seed("n-c13-block-wrap", "C13", CM, "        self.real += rhs.real;\n        self.imag += rhs.imag;", "        { self.real += rhs.real; }\n        { self.imag += rhs.imag; }", "SILENT", "extra blocks")
+seed("n-c02-let-reorder", "C02", SV, "        let mut det = T::one();\n        let mut temp = self.clone();", "        let mut temp = self.clone();\n        let mut det = T::one();", "SILENT", "reordering independent lets")
+seed("n-c17-tol-local", "C17", NW, """            let dx = func(current) / deriv;
+            current -= dx;
+            if dx.abs() <= self.tol {
+                return Ok( current );
+            }
+        }
+        Err( current ) 
+    }
+}
+
+impl Newton<Cmplx> {""", """            let dx = func(current) / deriv;
+            current -= dx;
+            let tolerance = self.tol;
+            if dx.abs() <= tolerance {
+                return Ok( current );
+            }
+        }
+        Err( current ) 
+    }
+}
+
+impl Newton<Cmplx> {""", "SILENT", "a local alias for self.tol")
+seed("n-c10-comment-and-const", "C10", PM, "        const MR: usize = 8;\n        const MT: usize = 10;", "        const MT: usize = 10;\n        const MR: usize = 8; // fractional steps", "SILENT", "reordered constants")
+seed("n-c19-dx-inline", "C19", ME1, "            let dx = self.nodes[ node + 1 ] - self.nodes[ node ];\n            sum += 0.5 * dx * ( self.vars[ node ][ var ] ", "            sum += 0.5 * ( self.nodes[ node + 1 ] - self.nodes[ node ] ) * ( self.vars[ node ][ var ] ", "SILENT", "inlined let")
+seed("n-c06-walk-var-rename", "C06", SP, "        for j in 0..self.cols {\n            for k in self.col_start[ j ]..self.col_start[ j + 1 ] {\n                triplets.push( ( self.row_index[ k ], j, self.val[ k ] ) );", "        for col in 0..self.cols {\n            for p in self.col_start[ col ]..self.col_start[ col + 1 ] {\n                triplets.push( ( self.row_index[ p ], col, self.val[ p ] ) );", "SILENT", "renamed loop variables")
+seed("n-c11-degree-let", "C11", PM, "        let degree = self.degree().unwrap(); //TODO unwrap\n        let mut p = self.coeffs[ degree ];", "        let degree = self.coeffs.len() - 1;\n        let mut p = self.coeffs[ degree ];", "SILENT", "degree().unwrap() <-> len()-1")
+seed("n-c04-index-let", "C04", BD, "        //&self.compact[ i ][ self.m1 + j - i ]\n        &self.compact[ (i, self.m1 + j - i) ]", "        let col = self.m1 + j - i;\n        &self.compact[ (i, col) ]", "SILENT", "let for the compact column")
